@@ -340,7 +340,29 @@ def tabulate_corners(d):
     return out
 
 
-def emit(ex, corners, l1=None) -> str:
+def tabulate_api(d):
+    """G1: what the running gauss() does on the whole probed range: (dim, order) -> error class | (#points, #weights)"""
+    out = {}
+    for dim in PROBE_DIMS:
+        for o in PROBE_ORDERS:
+            if o == "max":
+                continue
+            r = impl_rule(d.quadrature.gauss, dim, o)
+            out[(dim, o)] = r if isinstance(r, Raised) else (len(r[0]), len(r[1]))
+    return out
+
+
+def emit_api(api) -> str:
+    L = ["/-- the probed range of `gauss(dim, order)` (G1, from the running code) -/",
+         "def probed : List (Nat × Nat) := [" + ", ".join(f"({a}, {b})" for a, b in sorted(api)) + "]",
+         "/-- the probed pairs the running `gauss` rejects, with the error class -/",
+         "def observedRaise : List (Nat × Nat × Err) := [" + ", ".join(f"({a}, {b}, .{v.cls})" for (a, b), v in sorted(api.items()) if isinstance(v, Raised)) + "]",
+         "/-- the probed pairs it accepts, with the number of points and weights returned -/",
+         "def observedAccept : List (Nat × Nat × Nat × Nat) := [" + ", ".join(f"({a}, {b}, {v[0]}, {v[1]})" for (a, b), v in sorted(api.items()) if not isinstance(v, Raised)) + "]"]
+    return "\n".join(L) + "\n"
+
+
+def emit(ex, corners, l1=None, api=None) -> str:
     L = ["import DarsiaModel.Quadrature", "namespace Darsia.Gen", "open Darsia Darsia.Quad", ""]
     L.append("def maxOrder : Nat → Option Nat")
     for dim, o in sorted(ex["max"].items()):
@@ -376,7 +398,7 @@ def emit(ex, corners, l1=None) -> str:
                  + "], [" + ", ".join(lean_expr(("rat", x)) for x in w) + "]⟩")
     L += [f"  | _ => .error .{ERRMAP.get(ex['default'], 'other')}", ""]
     L.append("def cornerDims : List Nat := [" + ", ".join(str(k) for k, v in sorted(corners.items()) if not isinstance(v, Raised)) + "]")
-    L += ["", emit_l1(l1), "end Darsia.Gen"]
+    L += ["", emit_l1(l1), emit_api(api or {}), "end Darsia.Gen"]
     return "\n".join(L) + "\n"
 
 
@@ -604,6 +626,26 @@ def consumer(ctx, d):
                         ctx.fail(f"C15:transport_density({mode},dim={dim}):constant-flux", "a flux that is constant in a cell must give density = its norm (weights sum to 1)",
                                  {"call": ["consumer", mode, dim, list(shape)], "face_flux_per_axis": fa.tolist(), "required": float(np.linalg.norm(fa)),
                                   "observed": repr(tdc)[:200] if isinstance(tdc, Raised) else np.asarray(tdc)[inner].ravel().tolist()[:5]})
+                # the statement of the consumer itself ("the modes merely differ in the integration rule"): the density is the quadrature of
+                # ||cell flux|| with the rule the mode selects - evaluated here with the REAL rule functions and the real face_to_cell
+                src_rule = (ctx.cov.get("g2_l1_modes") or {}).get(mode)
+                if src_rule is None:
+                    ctx.notes.append(f"consumer oracle skipped for {mode}: the rule call of the mode could not be extracted")
+                else:
+                    rr = impl_rule(d.quadrature.reference_cell_corners, dim) if src_rule[0] == "corners" else impl_rule(
+                        d.quadrature.gauss_reference_cell, dim, src_rule[1] if src_rule[1] == "max" else int(src_rule[1]))
+                    if not isinstance(rr, Raised) and len(rr[0]) == len(rr[1]):
+                        refi = np.zeros(shape)
+                        for pt, wq in zip(*rr):
+                            refi += wq * np.linalg.norm(d.face_to_cell(grid, flux, pt=np.array(pt) if dim > 1 else pt[0]), 2, axis=-1)
+                        ei = float(np.max(np.abs(refi - td))) / max(1.0, float(np.max(np.abs(td))))
+                        if not ei <= 1e-12:
+                            cidx = int(np.argmax(np.abs(refi - td)))
+                            ctx.fail(f"C15:transport_density({mode},dim={dim}):not-the-quadrature-of-its-rule",
+                                     "transport_density differs from the sum over the rule its L1 mode selects of weight * ||face_to_cell(flux, point)|| "
+                                     "(the rule in effect is not the proved one: other weights / points)",
+                                     {"call": ["consumer", mode, dim, list(shape)], "flux": flux.tolist(), "cell": cidx, "density": float(np.asarray(td).ravel()[cidx]),
+                                      "quadrature_with_the_selected_rule": float(refi.ravel()[cidx]), "relative_difference": ei})
                 if isinstance(m, str):
                     diffs.append((mode, dim, "model has no rule", m))
                     continue
@@ -827,7 +869,7 @@ def run(ctx):
             ctx.cov["tie"] = "G2-unavailable, validated-against-running-code" if ok else "G2-unavailable, committed table does not match the running code"
         else:
             ctx.cov["tie"] = "G2 extraction from the source, validated against the running gauss()"
-            ctx.write_gen("QuadratureTables", emit(ex, tabulate_corners(d), l1))
+            ctx.write_gen("QuadratureTables", emit(ex, tabulate_corners(d), l1, tabulate_api(d)))
     ctx.prove("C15")
     if ex is not None:
         # which obligation fails (diagnostics; directs nothing - the oracle is exhaustive anyway)
